@@ -260,6 +260,17 @@ def c05(ctx):
             else:
                 env[v] = rng.choice([0.5, -1.5, 2.25, 0.0, 3.75, 1e3, -0.125])
         cases.append((t, env, "mixed"))
+    # equations whose sides differ by very little (relative 1e-10 .. 1e-18) or not at all:
+    # "raises when the sides differ" must not depend on a tolerance
+    for _ in range(400 if quick else 8000):
+        big = rng.random() < 0.7
+        t = rand_int_tree(rng, rng.choice([1, 2, 3]), big)
+        env = {v: rng.choice([1, 2, 7, 10**12, 10**20, -(10**30)]) for v in "xyz"}
+        delta = rng.choice([1, -1, 0, 2])
+        cases.append((("B", "eq", t, ("B", "add", t, ("I", delta))), env, "eq"))
+        q = Fraction(rng.randint(1, 10**6), rng.choice([1, 2, 4, 8]))
+        eps = rng.choice([Fraction(1, 10**10), Fraction(1, 10**12), Fraction(0), Fraction(1, 2**40)])
+        cases.append((("B", "eq", ("F", q), ("F", q * (1 + eps))), {}, "mixed"))
     # fixed probes of every clause
     probes = [
         (("B", "pow", ("I", 2), ("I", 64)), {}), (("B", "pow", ("I", 3), ("I", 41)), {}),
@@ -286,7 +297,7 @@ def c05(ctx):
         except Exception:
             return True
 
-    cases = [c for c in cases if c[2] != "int" or feasible(c[0], c[1])]
+    cases = [c for c in cases if c[2] not in ("int", "eq") or feasible(c[0][2] if c[2] == "eq" else c[0], c[1])]
     drv = core.Driver()
     ans = drv.ask([f"pyeval {p_wire(t)} {env_wire(env)}" for t, env, _ in cases])
     bad, diffs = [], []
@@ -305,6 +316,26 @@ def c05(ctx):
                 want = z_denote(t, {k: v for k, v in env.items()})
                 if real != ("int", want) and kind == "int":
                     bad.append({"tree": p_str(t), "env": str(env), "real": str(real)[:200], "exact": str(want)[:200]})
+            except (ArithmeticError, OverflowError, KeyError, TypeError, IndexError):
+                pass
+        # oracle for the equation clause: common value when the sides are equal, an error when
+        # they differ — by ANY amount
+        if t[0] == "B" and t[1] == "eq" and kind in ("eq", "mixed") and real[0] != "exc" or \
+                (t[0] == "B" and t[1] == "eq" and kind == "eq"):
+            try:
+                if kind == "eq":
+                    l_v, r_v = z_denote(t[2], dict(env)), z_denote(t[3], dict(env))
+                elif t[2][0] == "F" and t[3][0] == "F":
+                    l_v, r_v = float(t[2][1]), float(t[3][1])
+                else:
+                    l_v = r_v = None
+                if l_v is not None:
+                    if l_v != r_v and real[0] != "exc":
+                        bad.append({"tree": p_str(t)[:300], "env": str(env)[:200], "real": str(real)[:200],
+                                    "problem": f"the sides differ ({str(l_v)[:60]} vs {str(r_v)[:60]}) but evaluate() did not raise"})
+                    if l_v == r_v and real[0] == "exc":
+                        bad.append({"tree": p_str(t)[:300], "env": str(env)[:200], "real": str(real)[:200],
+                                    "problem": "the sides are equal but evaluate() raised"})
             except (ArithmeticError, OverflowError, KeyError, TypeError, IndexError):
                 pass
         if not agree(real, a, ops):
